@@ -67,6 +67,24 @@ class Burster(Manager):
         finally:
             self.capture_get = False
 
+    async def op_crash(self, st: dict) -> None:
+        """One management operation whose request dies at a chosen seam; the server restarts afterwards."""
+        sub = st["request"]
+        self.captured = []
+        self.capturing = True
+        try:
+            await getattr(self, "op_" + sub["op"])(sub)
+        finally:
+            self.capturing = False
+        if not self.captured:
+            self.sim.world.probe("crash.nothing-to-send")
+            return
+        req = dict(self.captured[-1])
+        req["recipe"] = sub
+        outcome = burstlib.run_crash(self.sim.world, self.id, req, int(st.get("at", 1)))
+        self.api.csrf.clear()
+        self.notify("on_crash", st, req, outcome)
+
     async def op_burst(self, st: dict) -> None:
         reqs: list[dict] = []
         for sub in st["requests"]:
